@@ -502,7 +502,7 @@ pub fn compare(d: Dialect, mode: &str, real: &str, reference: &str) -> Option<Fa
 fn sel_unsupported(d: Dialect, spec: &SelSpec) -> bool {
     let nested = |q: &SelSpec| sel_unsupported(d, q);
     let here = match d {
-        Dialect::Mysql => spec.joins.iter().any(|j| j.0 == JoinK::FullOuter) || spec.items.is_empty(),
+        Dialect::Mysql => spec.joins.iter().any(|j| j.0 == JoinK::FullOuter) || spec.items.is_empty() || (spec.offset.is_some() && spec.limit.is_none()),
         // a CROSS JOIN takes no ON clause in PostgreSQL: asking for one is outside the dialect
         Dialect::Postgres => spec.joins.iter().any(|j| j.0 == JoinK::Cross),
         Dialect::Sqlite => true,
@@ -994,7 +994,7 @@ pub fn extras(thorough: bool) -> Vec<Extra> {
         });
     }
     // (h) enum casts: PostgreSQL casts to the enum type, MySQL writes the bare value
-    for pos in ["item", "where", "insert-value"] {
+    for pos in ["item", "where", "insert-value", "on-conflict-value", "update-value", "order-by"] {
         v.push(Extra {
             name: format!("enum-cast in {pos}"),
             real: Box::new(move |d, build| {
@@ -1002,6 +1002,15 @@ pub fn extras(thorough: bool) -> Vec<Extra> {
                 match pos {
                     "item" => render_sel(base_select().expr_as(e(), a("m")), d, build),
                     "where" => render_sel(base_select().and_where(Expr::col(a("s")).eq(e())), d, build),
+                    "order-by" => render_sel(base_select().order_by_expr(e(), Order::Asc), d, build),
+                    "on-conflict-value" => {
+                        let s = Query::insert().into_table(a("t1")).columns([a("id")]).values_panic([1.into()]).on_conflict(OnConflict::column(a("id")).value(a("s"), e()).to_owned()).to_owned();
+                        render_any(&s, d, build)
+                    }
+                    "update-value" => {
+                        let s = Query::update().table(a("t1")).value(a("s"), e()).to_owned();
+                        render_any(&s, d, build)
+                    }
                     _ => {
                         let s = Query::insert().into_table(a("t1")).columns([a("s")]).values_panic([e().into()]).to_owned();
                         render_any(&s, d, build)
@@ -1010,11 +1019,21 @@ pub fn extras(thorough: bool) -> Vec<Extra> {
             }),
             reference: Box::new(move |d, build| {
                 let q = |n: &str| qd(d, n);
-                let v = ph(d, build, 1, "'sad'");
+                let v = ph(d, build, if pos == "on-conflict-value" { 2 } else { 1 }, "'sad'");
                 let e = if d == Dialect::Postgres { format!("CAST({v} AS {})", q("mood")) } else { v };
                 Some(match pos {
                     "item" => format!("SELECT {}, {e} AS {} FROM {}", q("a"), q("m"), q("t1")),
                     "where" => format!("SELECT {} FROM {} WHERE {} = {e}", q("a"), q("t1"), q("s")),
+                    "order-by" => format!("SELECT {} FROM {} ORDER BY {e} ASC", q("a"), q("t1")),
+                    "on-conflict-value" => {
+                        let one = ph(d, build, 1, "1");
+                        if d == Dialect::Mysql {
+                            format!("INSERT INTO {} ({}) VALUES ({one}) ON DUPLICATE KEY UPDATE {} = {e}", q("t1"), q("id"), q("s"))
+                        } else {
+                            format!("INSERT INTO {} ({}) VALUES ({one}) ON CONFLICT ({}) DO UPDATE SET {} = {e}", q("t1"), q("id"), q("id"), q("s"))
+                        }
+                    }
+                    "update-value" => format!("UPDATE {} SET {} = {e}", q("t1"), q("s")),
                     _ => format!("INSERT INTO {} ({}) VALUES ({e})", q("t1"), q("s")),
                 })
             }),
